@@ -1,8 +1,8 @@
 #!/bin/bash
-# Re-run every seed that was made on top of a stored refactoring (rounds 5 and 7: seeded/*-d, seeded/*-e) against the
+# Re-run every seed that was made on top of a stored refactoring (rounds 5, 7 and 9: seeded/*-d, *-e, *-f) against the
 # current /verif: own check + those that fired before.  Scratch trees only; /repo is not touched.
 cd /verif
-for d in seeded/*-d/ seeded/*-e/; do
+for d in seeded/*-d/ seeded/*-e/ seeded/*-f/; do
   [ -f "$d/meta.json" ] || continue
   n=$(basename $d); pid=$(python3 -c "import json;print(json.load(open('$d/meta.json'))['property'])")
   base=$(python3 -c "import json,re;print(re.search(r'benign/([^/]+)/', json.load(open('$d/meta.json'))['base']).group(1))")
